@@ -10,7 +10,7 @@ from __future__ import annotations
 import collections
 import os
 
-from harness import c01_analysis_py2v, c01_gen, c01_run, c01_tables_py2v, common
+from harness import c01_analysis_py2v, c01_eager, c01_gen, c01_run, c01_tables_py2v, common
 from harness.common import clist
 
 PROPERTY = "C01"
@@ -413,7 +413,7 @@ def classify(mech, which, text):
     return None
 
 
-def direct_oracle(ctx, d: Decorated, stats, n_sets, rng, worker):
+def direct_oracle(ctx, d: Decorated, stats, n_sets, rng, worker, collector=None):
     import numpy as np
     from harness import c01_interp
     from harness.c02 import model_has_attr_refs
@@ -458,7 +458,10 @@ def direct_oracle(ctx, d: Decorated, stats, n_sets, rng, worker):
             stats["numpy_undefined_input"] += 1
         # ---- eager
         try:
-            E = c01_interp.run_eager(f, prog, tensors, attrs)
+            if collector is not None:          # the same call, with the real evaluator's events recorded (harness/c01_eager.py)
+                E = collector.traced_eager(d, f, prog, tensors, attrs)
+            else:
+                E = c01_interp.run_eager(f, prog, tensors, attrs)
         except Exception as e:  # noqa: BLE001
             E = e
         feeds = c01_interp.feeds_of(prog, tensors)
@@ -705,7 +708,7 @@ def run(ctx):
     ctx.assume("float inputs are dyadic and small; the NumPy reading is compared only when every intermediate value stays exactly representable")
     ctx.trust("harness/c01_gen.py printers (program -> Python source / Script.Syntax literal), harness/graphlit.py (proto -> graph literal)")
     ctx.check_props()
-    ctx.build(["Script/Corr.vo", "Script/ClassCorr.vo"])
+    ctx.build(["Script/Corr.vo", "Script/ClassCorr.vo", "Script/EagerCorr.vo"])
     quick = ctx.tier == "quick"
     scale = float(os.environ.get("OSVERIF_C01_SCALE", "1") or 1)      # development aid (self-tests under load); default 1
     n_prog = int((160 if quick else 1800) * scale)
@@ -766,6 +769,8 @@ def run(ctx):
         worker = c01_run.OrtWorker(timeout=20)
         loop_else_probe(ctx, wd, worker, stats)
         nested_def_probe(ctx, wd, worker, stats)
+        c01_eager.by_construction(ctx, wd, worker, stats)
+        collector = c01_eager.Collector(limit=260 if quick else 1500)
         for d in decorated:
             if not d.accepted:
                 stats["refused"] += 1
@@ -773,7 +778,7 @@ def run(ctx):
             stats["accepted"] += 1
             if stats["accepted"] > n_oracle:
                 continue
-            flagged, mech = direct_oracle(ctx, d, stats, n_sets, _random.Random(input_seeds[d.idx]), worker)
+            flagged, mech = direct_oracle(ctx, d, stats, n_sets, _random.Random(input_seeds[d.idx]), worker, collector)
             for k, v in mech.items():
                 mech_count[k] += 1 if v else 0
             if flagged:
@@ -781,6 +786,9 @@ def run(ctx):
             if d.idx < 2:
                 ctx.sample({"source": d.source})
         phases["direct_oracle_s"] = round(_time.time() - t1, 1)
+        t1 = _time.time()
+        c01_eager.correspond(ctx, collector, flagged_progs)
+        phases["eager_trace_correspondence_s"] = round(_time.time() - t1, 1)
         # ---- subscript stream: collected from the child process started above
         t1 = _time.time()
         res = sub_child.collect(ctx)
